@@ -72,10 +72,42 @@ type c02Workload struct {
 	Loaders    []c02Loader `json:"loaders"`
 	Reg        []c02File   `json:"reg"`
 	RegT       []c02File   `json:"regt"`
+	Phases     []c02Phase  `json:"phases"`
 	Threads    [][]c02Call `json:"threads"`
 	NCalls     int         `json:"ncalls"`
 	Nontrivial bool        `json:"nontrivial"`
 	Reps       int         `json:"reps"`
+}
+
+// a later phase of a workload: while no call is running the named template files are rewritten (with a later
+// modification time), then the phase's goroutines run on the same engine
+type c02Rewrite struct {
+	L int    `json:"l"`
+	D int    `json:"d"`
+	N string `json:"n"`
+	S string `json:"s"`
+}
+
+type c02Phase struct {
+	Rewrites []c02Rewrite `json:"rewrites"`
+	MTime    int64        `json:"mtime"`
+	Threads  [][]c02Call  `json:"threads"`
+}
+
+var c02BaseTime = time.Unix(1700000000, 0)
+
+func c02ApplyRewrites(root string, ph *c02Phase) error {
+	for _, rw := range ph.Rewrites {
+		p := filepath.Join(root, fmt.Sprintf("L%d", rw.L), fmt.Sprintf("D%d", rw.D), filepath.FromSlash(unhex(rw.N)))
+		if err := os.WriteFile(p, []byte(unhex(rw.S)), 0o644); err != nil {
+			return err
+		}
+		t := c02BaseTime.Add(time.Duration(ph.MTime) * time.Second)
+		if err := os.Chtimes(p, t, t); err != nil {
+			return err
+		}
+	}
+	return nil
 }
 
 type c02T0 struct{ Name, Title string }
@@ -90,6 +122,7 @@ type c02Res struct {
 
 type c02Mismatch struct {
 	Rep      int    `json:"rep"`
+	Phase    int    `json:"phase"`
 	Thread   int    `json:"thread"`
 	Call     int    `json:"call"`
 	Op       string `json:"op"`
@@ -227,6 +260,9 @@ func c02Materialise(w *c02Workload, root string) error {
 				if err := os.WriteFile(p, []byte(unhex(f.S)), 0o644); err != nil {
 					return err
 				}
+				if err := os.Chtimes(p, c02BaseTime, c02BaseTime); err != nil {
+					return err
+				}
 			}
 		}
 	}
@@ -302,12 +338,21 @@ func runC02Child(cases string, res *Result) {
 			fmt.Fprintln(os.Stderr, "C02-child:", err)
 			os.Exit(2)
 		}
-		prep := make([][]c02Prepared, len(w.Threads))
-		for t, cs := range w.Threads {
-			prep[t] = make([]c02Prepared, len(cs))
-			for i, c := range cs {
-				prep[t][i] = c02Prepared{op: c.Op, n: unhex(c.N), s: unhex(c.S), vars: c02Vars(c.Vars)}
+		// phase 0 = the workload's own threads; later phases follow on the same engine after their rewrites
+		phases := append([]c02Phase{{Threads: w.Threads}}, w.Phases...)
+		prep := make([][][]c02Prepared, len(phases))
+		for p := range phases {
+			prep[p] = make([][]c02Prepared, len(phases[p].Threads))
+			for t, cs := range phases[p].Threads {
+				prep[p][t] = make([]c02Prepared, len(cs))
+				for i, c := range cs {
+					prep[p][t][i] = c02Prepared{op: c.Op, n: unhex(c.N), s: unhex(c.S), vars: c02Vars(c.Vars)}
+				}
 			}
+		}
+		fail := func(err error) {
+			fmt.Fprintln(os.Stderr, "C02-child:", err)
+			os.Exit(2)
 		}
 		o := c02Out{ID: w.ID}
 		note := func(m c02Mismatch) {
@@ -322,25 +367,33 @@ func runC02Child(cases string, res *Result) {
 		}
 		fmt.Fprintf(os.Stderr, "C02-MARK id=%d rep=serial\n", w.ID)
 		// the calls one after another on a fresh engine with the same configuration
-		serial := make([][]c02Res, len(prep))
+		serial := make([][][]c02Res, len(prep))
 		{
 			e := c02Engine(&w, root)
-			for t := range prep {
-				serial[t] = make([]c02Res, len(prep[t]))
-				for i := range prep[t] {
-					serial[t][i] = c02Exec(e, &prep[t][i])
-					o.Calls++
-					c := w.Threads[t][i]
-					exp := c02Res{C: c.C, O: unhex(c.O)}
-					got := serial[t][i]
-					if c.C == "unmodelled" || c.C == "fuel" {
-						if o.Unmod == nil {
-							o.Unmod = map[string]int{}
-						}
-						o.Unmod[c.Op+"/"+got.C]++
+			for p := range prep {
+				if p > 0 {
+					if err := c02ApplyRewrites(root, &phases[p]); err != nil {
+						fail(err)
 					}
-					if c.C != "fuel" && c.C != "unmodelled" && (got.C != exp.C || got.O != exp.O) {
-						note(c02Mismatch{Rep: -1, Thread: t, Call: i, Op: c.Op, Name: unhex(c.N), Kind: "model", Expected: exp.C + ":" + exp.O, Observed: got.C + ":" + got.O})
+				}
+				serial[p] = make([][]c02Res, len(prep[p]))
+				for t := range prep[p] {
+					serial[p][t] = make([]c02Res, len(prep[p][t]))
+					for i := range prep[p][t] {
+						serial[p][t][i] = c02Exec(e, &prep[p][t][i])
+						o.Calls++
+						c := phases[p].Threads[t][i]
+						exp := c02Res{C: c.C, O: unhex(c.O)}
+						got := serial[p][t][i]
+						if c.C == "unmodelled" || c.C == "fuel" {
+							if o.Unmod == nil {
+								o.Unmod = map[string]int{}
+							}
+							o.Unmod[c.Op+"/"+got.C]++
+						}
+						if c.C != "fuel" && c.C != "unmodelled" && (got.C != exp.C || got.O != exp.O) {
+							note(c02Mismatch{Rep: -1, Phase: p, Thread: t, Call: i, Op: c.Op, Name: unhex(c.N), Kind: "model", Expected: exp.C + ":" + exp.O, Observed: got.C + ":" + got.O})
+						}
 					}
 				}
 			}
@@ -348,43 +401,55 @@ func runC02Child(cases string, res *Result) {
 		for rep := 0; rep < w.Reps; rep++ {
 			fmt.Fprintf(os.Stderr, "C02-MARK id=%d rep=%d\n", w.ID, rep)
 			twig.VerifC02ResetGlobalCaches() // the process-wide string and attribute caches start cold as well
+			if len(phases) > 1 {
+				if err := c02Materialise(&w, root); err != nil { // the files as they were before the first rewrite
+					fail(err)
+				}
+			}
 			e := c02Engine(&w, root)
-			got := make([][]c02Res, len(prep))
-			start := make(chan struct{})
-			var wg sync.WaitGroup
-			for t := range prep {
-				got[t] = make([]c02Res, len(prep[t]))
-				wg.Add(1)
-				go func(t int) {
-					defer wg.Done()
-					<-start
-					for i := range prep[t] {
-						got[t][i] = c02Exec(e, &prep[t][i])
-						if rep%2 == 1 {
-							runtime.Gosched()
-						}
+			for p := range prep {
+				if p > 0 {
+					if err := c02ApplyRewrites(root, &phases[p]); err != nil {
+						fail(err)
 					}
-				}(t)
-			}
-			done := make(chan struct{})
-			go func() { wg.Wait(); close(done) }()
-			close(start)
-			select {
-			case <-done:
-			case <-time.After(40 * time.Second):
-				fmt.Fprintf(os.Stderr, "C02-HANG id=%d rep=%d\n", w.ID, rep)
-				buf := make([]byte, 1<<16)
-				n := runtime.Stack(buf, true)
-				os.Stderr.Write(buf[:n])
-				os.Exit(3)
-			}
-			for t := range prep {
-				for i := range prep[t] {
-					o.Calls++
-					if got[t][i] != serial[t][i] {
-						c := w.Threads[t][i]
-						note(c02Mismatch{Rep: rep, Thread: t, Call: i, Op: c.Op, Name: unhex(c.N), Kind: "oracle",
-							Expected: serial[t][i].C + ":" + serial[t][i].O + serial[t][i].X, Observed: got[t][i].C + ":" + got[t][i].O + got[t][i].X})
+				}
+				got := make([][]c02Res, len(prep[p]))
+				start := make(chan struct{})
+				var wg sync.WaitGroup
+				for t := range prep[p] {
+					got[t] = make([]c02Res, len(prep[p][t]))
+					wg.Add(1)
+					go func(t int) {
+						defer wg.Done()
+						<-start
+						for i := range prep[p][t] {
+							got[t][i] = c02Exec(e, &prep[p][t][i])
+							if rep%2 == 1 {
+								runtime.Gosched()
+							}
+						}
+					}(t)
+				}
+				done := make(chan struct{})
+				go func() { wg.Wait(); close(done) }()
+				close(start)
+				select {
+				case <-done:
+				case <-time.After(40 * time.Second):
+					fmt.Fprintf(os.Stderr, "C02-HANG id=%d rep=%d\n", w.ID, rep)
+					buf := make([]byte, 1<<16)
+					n := runtime.Stack(buf, true)
+					os.Stderr.Write(buf[:n])
+					os.Exit(3)
+				}
+				for t := range prep[p] {
+					for i := range prep[p][t] {
+						o.Calls++
+						if got[t][i] != serial[p][t][i] {
+							c := phases[p].Threads[t][i]
+							note(c02Mismatch{Rep: rep, Phase: p, Thread: t, Call: i, Op: c.Op, Name: unhex(c.N), Kind: "oracle",
+								Expected: serial[p][t][i].C + ":" + serial[p][t][i].O + serial[p][t][i].X, Observed: got[t][i].C + ":" + got[t][i].O + got[t][i].X})
+						}
 					}
 				}
 			}
@@ -563,6 +628,10 @@ func runC02(cases string, res *Result) {
 			res.Hist["workloads"]++
 			res.Hist["repetitions (cold engine each)"] += o.RepsDone
 			res.Hist["goroutines"] += len(w.list("threads"))
+			if ph := w.list("phases"); len(ph) > 0 {
+				res.Hist["workloads with later phases (files rewritten between phases)"]++
+				res.Hist["later phases"] += len(ph)
+			}
 			mode := "cache-on"
 			if w["cache"] != true {
 				mode = "cache-off"
@@ -595,7 +664,7 @@ func runC02(cases string, res *Result) {
 				"loaders": len(w.list("loaders")), "reps": o.RepsDone, "mismatches": o.NMis, "model_mismatches": o.NModel}, 12)
 			for _, m := range o.Mis {
 				if m.Kind == "oracle" {
-					res.add(Finding{Kind: "oracle", Where: fmt.Sprintf("workload %d rep %d goroutine %d call %d (%s %s)", id, m.Rep, m.Thread, m.Call, m.Op, m.Name),
+					res.add(Finding{Kind: "oracle", Where: fmt.Sprintf("workload %d rep %d phase %d goroutine %d call %d (%s %s)", id, m.Rep, m.Phase, m.Thread, m.Call, m.Op, m.Name),
 						Case: w, Expected: m.Expected, Observed: m.Observed,
 						Detail: "a call on the shared engine returned something else than the same call when all calls run one after another on a fresh engine"})
 					break
@@ -603,7 +672,7 @@ func runC02(cases string, res *Result) {
 			}
 			for _, m := range o.Mis {
 				if m.Kind == "model" {
-					res.add(Finding{Kind: "disagreement", Where: fmt.Sprintf("workload %d goroutine %d call %d (%s %s), serial execution", id, m.Thread, m.Call, m.Op, m.Name),
+					res.add(Finding{Kind: "disagreement", Where: fmt.Sprintf("workload %d phase %d goroutine %d call %d (%s %s), serial execution", id, m.Phase, m.Thread, m.Call, m.Op, m.Name),
 						Case: w, Expected: m.Expected, Observed: m.Observed, Detail: "the serially executed call differs from the model's prediction"})
 					break
 				}
